@@ -608,6 +608,40 @@ func famZipkinIDPairs() *family {
 	})
 }
 
+// ---- histories ------------------------------------------------------------------------------------------------------
+
+// bodies of different size classes (1, 2, 3 spans; with and without attributes), Zipkin array / NDJSON and OTLP
+func historyBodies() []*Batch {
+	zp := zipkinPool(7)
+	op := spanPool(6)
+	z := func(nd bool, ks ...int) *Batch {
+		b := &Batch{Proto: "zipkin", ND: nd}
+		for _, k := range ks {
+			b.Spans = append(b.Spans, zp[k])
+		}
+		return b
+	}
+	o := func(ks ...int) *Batch {
+		b := &Batch{Proto: "otlp", Res: []Resource{{Attrs: []KV{svcAttr("A"), {"host", str("h1")}}, Scopes: 1}}}
+		for _, k := range ks {
+			b.Spans = append(b.Spans, op[k])
+		}
+		return b
+	}
+	return []*Batch{z(false, 1), z(false, 3), z(false, 0, 2), z(true, 3, 1, 2), z(false, 5, 6, 4), o(0), o(3), o(1, 2), o(4, 5, 0)}
+}
+
+func famHistory() *family {
+	bodies := historyBodies()
+	hist := []string{"handover", "retry"}
+	return newFamily("history", []dim{{"first", len(bodies)}, {"second", len(bodies)}, {"history", len(hist)}}, func(d []int) *Batch {
+		a := *bodies[d[0]]
+		then := *bodies[d[1]]
+		a.Then, a.History = &then, hist[d[2]]
+		return &a
+	})
+}
+
 func buildSpace(thorough bool) *space {
 	s := &space{}
 	add := func(f *family) { s.fams = append(s.fams, f); s.total += f.size }
@@ -644,6 +678,7 @@ func buildSpace(thorough bool) *space {
 	}
 	add(famZipkinOrder())
 	add(famZipkinLongSpan())
+	add(famHistory())
 	add(famZipkinIDPairs())
 	add(famZipkinIDLens("zipkin-idlens1", 1, traceLensFull, spanLensFull, parentLensFull))
 	if thorough {
